@@ -49,7 +49,7 @@ def run(ctx):
 
 LEVEL_TEXT = ("Kernel-checked Lean theorem C38_range for every previous setting and every requested size (accepted iff "
               "8<=n<=65000; rejection keeps the old value) plus the call-sequence invariant C38_setting_in_range by "
-              "induction over arbitrary call lists; the model is tied to RtpsUdpTransportParticipantFactory by running "
+              "induction over arbitrary call lists and the exact characterisation C38_last_accepted (after any call list from any previous setting the setting is the argument of the last in-range call, the previous setting if there was none); the model is tied to RtpsUdpTransportParticipantFactory by running "
               "thousands of boundary-biased call sequences on both and comparing every intermediate result.")
 LEVEL_NOTE = "Trusted: Lean kernel; 3-line model setFragmentSize in Model/Time.lean; differential harness over the public API (usize = u64)."
 TECHNIQUE = "Lean 4 theorem + differential correspondence over call sequences"
